@@ -321,7 +321,7 @@ func runProtocol(kc *kernelCtx, blocks []*Block, only string, want map[string]bo
 			pc.curExtra = []string{plug}
 		}
 		onPlug := plug != "" && on(plug)
-		if on("C09") || onPlug {
+		if on("C09") || on("C14") || on("C16") || onPlug {
 			pc.p1Context(s)
 		}
 		if on("C12") || onPlug {
